@@ -108,7 +108,7 @@ def _drive(lines):
 def new_stats():
     return dict(programs=0, graphs=0, graph_equal=0, both_error=0, error_kinds={}, skipped_other=0,
                 runs=0, run_outcomes={}, runs_exhaustive=0, walk_equal=0, wf_ok=0, pc_ok=0, pc_rejected_expected=0,
-                nodes=0, edges=0, max_nodes=0, features={}, mirror_checked=0, nontrivial=0,
+                nodes=0, edges=0, max_nodes=0, features={}, mirror_checked=0, nontrivial=0, owners_equal=0,
                 hyp={'supported': 0, 'finally_free_fragment': 0, 'distinct_keys': 0, 'no_jump_in_handler_of_try_with_finally': 0,
                      'in_scope_of_C05_paths_partial': 0, 'covered_by_checker_only': 0},
                 fails=[], broken={})
@@ -187,6 +187,8 @@ def process(cases, driver_ok, execute, dec_len=0, dec_runs=0):
         if driver_ok:
             lines.append('c05.graph ' + c.text); plan.append(('graph', c))
             lines.append('c05.hyp ' + c.text); plan.append(('hyp', c))
+            if not c.real.error and fid in c.real.owners:
+                lines.append('c05.owners ' + c.text); plan.append(('owners', c))
             if not c.real.error:
                 for gid, g in sorted(c.real.graphs.items()):
                     lines.append('c05.wf ' + sexp(c05_real.graph_sexp(gid, g))); plan.append(('wf', c))
@@ -216,7 +218,8 @@ def process(cases, driver_ok, execute, dec_len=0, dec_runs=0):
                 else:
                     st['graph_equal'] += len(mg)
             elif what == 'hyp':
-                sup, frag, dist, nojump = [v == 'True' for v in common.parse_sexp(ans)]
+                sup, frag, dist, nojump, distown = [v == 'True' for v in common.parse_sexp(ans)]
+                c.hyp_owner = sup and distown
                 h = st['hyp']
                 h['supported'] += sup; h['finally_free_fragment'] += frag; h['distinct_keys'] += dist
                 h['no_jump_in_handler_of_try_with_finally'] += nojump
@@ -227,6 +230,15 @@ def process(cases, driver_ok, execute, dec_len=0, dec_runs=0):
                 # the key-distinctness hypothesis may fail only where the real builder itself fails
                 if not dist and not c.real.error:
                     broken(st, 'hypothesis:fnDistinctKeys', json.dumps({'key': c.key, 'source': c.source}))
+            elif what == 'owners':
+                # lexical containment (the Lean specification `fnOwnSpec`) == the real builder's `owners`, node by node
+                if getattr(c, 'hyp_owner', False):
+                    spec = [[int(v) for v in row] for row in common.parse_sexp(ans)]
+                    if spec == c.real.owners[c.ser.id_of(c.fn)]:
+                        st['owners_equal'] = st.get('owners_equal', 0) + 1
+                    else:
+                        broken(st, 'correspondence:c05.owners', json.dumps({'key': c.key, 'source': c.source,
+                               'real': c.real.owners[c.ser.id_of(c.fn)][:12], 'spec': spec[:12]}))
             elif what == 'wf':
                 if ans == 'True':
                     st['wf_ok'] += 1
@@ -430,7 +442,7 @@ def check(run):
     run.cov['spaces'] = spaces
     run.cov['exhaustive'] = all(s['exhaustive'] for s in spaces)
     run.cov['totals'] = {k: total[k] for k in ('programs', 'graphs', 'graph_equal', 'both_error', 'runs', 'run_outcomes', 'walk_equal',
-                                               'wf_ok', 'pc_ok', 'pc_rejected_expected', 'mirror_checked', 'nodes', 'edges', 'max_nodes')}
+                                               'wf_ok', 'pc_ok', 'pc_rejected_expected', 'mirror_checked', 'owners_equal', 'nodes', 'edges', 'max_nodes')}
     run.cov['hypotheses_on_explored_programs'] = total['hyp']
     run.cov['error_kinds_of_real_builder'] = total['error_kinds']
     run.cov['constructs'] = dict(sorted(total['features'].items(), key=lambda kv: -kv[1])[:40])
@@ -438,8 +450,8 @@ def check(run):
 
     # ---- obligations from the accumulated statistics
     if run.driver_ok:
-        names = ['correspondence:c05.graph', 'correspondence:c05.walk', 'checker:wellFormed', 'checker:pathCheck',
-                 'hypothesis:fnDistinctKeys']
+        names = ['correspondence:c05.graph', 'correspondence:c05.walk', 'correspondence:c05.owners', 'checker:wellFormed',
+                 'checker:pathCheck', 'hypothesis:fnDistinctKeys']
         for nme in names:
             det = total['broken'].get(nme, [])
             run.oblige(nme, nme.split(':')[0], not det, '\n'.join(det[:3]))
